@@ -40,3 +40,37 @@ Proof.
     destruct (run_until_fail r w1) as [w2 crs2]. rewrite app_assoc. reflexivity.
 Qed.
 End Flat.
+
+(** The same with the flag as part of the state: it is on at the start and no step of the
+    oracle switches it off. Then the flat loop stops after the first failing line and the flag
+    is still on in the final state. *)
+Section FlatInv.
+Variable W : Type.
+Variable run_line : W -> str -> W * list Z.
+Variable eoe : W -> bool.
+Variables (rif : ttree -> bool -> W -> outcome W) (rfor rwh : ttree -> W -> outcome W).
+Hypothesis keep : forall w l, eoe w = true -> eoe (fst (run_line w l)) = true.
+
+Theorem flat_set_e_inv : forall lines, forallb wf_line lines = true ->
+  forall w acc, eoe w = true -> last_is_nonzero acc = false ->
+  exp_loop W run_line eoe rif rfor rwh false (map cmd_node lines) w acc =
+  (let '(w1, crs) := run_until_fail W run_line lines w in Done w1 (acc ++ crs) false false)
+  /\ eoe (fst (run_until_fail W run_line lines w)) = true.
+Proof.
+  induction lines as [|l r IH]; intros Hwf w acc Hw Hacc.
+  - cbn. rewrite app_nil_r. split; [reflexivity | exact Hw].
+  - cbn [forallb] in Hwf. apply andb_prop in Hwf as [Hl Hr].
+    unfold wf_line in Hl. apply andb_prop in Hl as [Hl H3]. apply andb_prop in Hl as [H1 H2].
+    apply negb_true_iff in H1, H2, H3.
+    cbn [map exp_loop cmd_node t_txt t_rule run_until_fail].
+    rewrite H1, H2, H3, N.eqb_refl.
+    pose proof (keep w l Hw) as Hk.
+    destruct (run_line w l) as [w1 crs]. cbn [fst] in Hk.
+    rewrite Hk, andb_true_r, (last_nz_app acc crs Hacc).
+    destruct (last_is_nonzero crs) eqn:E.
+    + split; [reflexivity | exact Hk].
+    + destruct (IH Hr w1 (acc ++ crs) Hk) as [IH1 IH2]; [rewrite last_nz_app; assumption|].
+      rewrite IH1. destruct (run_until_fail W run_line r w1) as [w2 crs2]. cbn [fst] in *.
+      rewrite app_assoc. split; [reflexivity | exact IH2].
+Qed.
+End FlatInv.
